@@ -385,6 +385,10 @@ def execute(hist, stop_at_first=True, known=None, collect=True):
         if now != user0:
             changed = sorted(k for k in user0 if now.get(k) != user0[k])
             violation("user_data", changed[0] if changed else "?", float("inf"), 0.0, opi)
+        else:
+            ch = zoo.early_changed(model)
+            if ch:
+                violation("user_data", ch, float("inf"), 0.0, opi)
 
     def note_cache_state():
         d, n = obs.cache_state_digest(prob)
